@@ -11,9 +11,11 @@ DRV = ("The generated parsers are verified as rendered text: on every run an inj
        "goCode and goObject renderings, packed and unpacked, are put under ONE contract text (goObject through renamings) and every obligation is discharged "
        "by SMT; the per-rule reduce cases are replaced mechanically by one schematic case whose holes are tied to the grammar by `emits` obligations on "
        "buildReduceFunc/buildConstPart, and every rendered case must have that shape. ")
-STAGES = ("This end-to-end property also depends on the stages between the grammar and the tables; their contracts are discharged in the same run (`govc -with`) "
-          "and reported under this property: the LR(0) leaf functions (InsertItem, InsertGoTO, CheckIsExist, InsertItemClosure, getItemCloure, ComputeIClosure = least closed "
-          "superset), table splitting and packing (SplitActionAndGotoTable, TrySplitTable: packed lookup == dense table, PackTable, UnPackTable). ")
+STAGES = ("This end-to-end property also depends on every stage between the grammar text and the tables; the stage contracts are discharged in the same run (`govc -with`) "
+          "and reported under this property: token definitions, codes and tags (lexer literal token, parseTokendef, parsePrecList, parseRule, astDeclareVistor.Process, BuildLALR1, "
+          "translate builders - the C11 contracts), usability checks and nullable/productive fixpoints (C12), the LR(0) leaf functions and local worklist steps (C09: ComputeIClosure = "
+          "least closed superset, CheckIsExist exact, ...), the relation builders (C03: BuildTrans, direct reads, reads, includes, lookback - exact), conflict resolution and precedence "
+          "attachment (C04), table splitting and packing (C05: packed lookup == dense table). ")
 DRVNOTE = (TB + "Hypotheses used as axioms (not proved here): the LR(0)-automaton facts AP0-AP2 and the table encoding TC/TCgoto/TC0 (DESIGN §4; postconditions of "
        "GenTable / the LR(0) construction, which are not yet under contract), SIZES, INV-R for goto lookups in packed mode, packed-lookup == dense table "
        "(TrySplitTable's proved postcondition, assumed at the interface). Trusted contracts: translate, GetToken (user code), TraceTranslate, TraceReduce, "
